@@ -536,8 +536,7 @@ Section LoopFacts.
         constructor; [now left|constructor].
       + apply Hweak, Hsame; [cbn; rewrite E1|unfold full; cbn; fold (full st1); rewrite E2]; reflexivity.
     - (* ParseError *)
-      cbn. rewrite E3. destruct (l_stopnm st); apply Hweak, Hsame; try (cbn; rewrite E1; reflexivity);
-        unfold full; cbn; fold (full st1); rewrite E2; reflexivity.
+      apply Hweak, Hsame; [cbn; rewrite E1; reflexivity|unfold full; cbn; fold (full st1); rewrite E2; reflexivity].
   Qed.
 
   Lemma finish_ret st x : finish o st = x -> x <> OutOfFuel /\
